@@ -7,9 +7,9 @@ cd $W
 git diff -- . ':(exclude)demo_*' > $D/patch.diff
 cp $W/$DEMO $D/$DEMO
 echo "--- demo WITH change"; (/venv/bin/python $DEMO > $D/.with.txt 2>&1; echo "exit=$?" >> $D/.with.txt) || true; tail -3 $D/.with.txt
-git stash -q
+git diff > $D/.all.diff; git checkout -q -- pony
 echo "--- demo WITHOUT change"; (/venv/bin/python $DEMO > $D/.without.txt 2>&1; echo "exit=$?" >> $D/.without.txt) || true; tail -2 $D/.without.txt
-git stash pop -q
+git apply $D/.all.diff; rm -f $D/.all.diff
 echo "--- suite WITH change"; /venv/bin/python -m pytest -q -p no:cacheprovider --timeout=900 --continue-on-collection-errors 2>&1 | tail -1 | tee $D/.suite.txt
 python3 - "$D" "$ID" "$PROP" "$DEMO" "$NEEDS" <<'PY'
 import json, sys, os
